@@ -30,3 +30,10 @@ import Mb2.Props.FnsCast
 import Mb2.Props.FnsBoxed
 import Mb2.Props.FnsBoxedCtor
 import Mb2.Props.FnsLinked
+import Mb2.Props.FnsTblBase
+import Mb2.Props.FnsTblMbi
+import Mb2.Props.FnsTblHdr
+import Mb2.Props.FnsTblElf
+import Mb2.Props.FnsTblEfi
+import Mb2.Props.FnsTblTags
+import Mb2.Props.FnsTblIds
